@@ -312,7 +312,8 @@ impl MemoryPool {
     }
 
     fn update_stats_on_alloc(&self, from_pool: bool) {
-        if let Ok(mut stats) = self.stats.try_write() {
+        // write(), not try_write(): a skipped update would leave `allocated` wrong for good
+        if let Ok(mut stats) = self.stats.write() {
             if !from_pool {
                 stats.allocated += self.config.chunk_size as u64;
             }
@@ -320,7 +321,7 @@ impl MemoryPool {
     }
 
     fn update_stats_on_dealloc(&self, to_pool: bool) {
-        if let Ok(mut stats) = self.stats.try_write() {
+        if let Ok(mut stats) = self.stats.write() {
             if !to_pool {
                 stats.allocated = stats
                     .allocated
